@@ -36,6 +36,8 @@ pub struct GenCfg {
     pub doc_chance: u8,
     /// non-ASCII / mixed indentation and white-space-only lines in doc comments
     pub exotic_docs: bool,
+    /// link / see targets also include scoped, global, member and module names
+    pub rich_link_targets: bool,
 }
 
 impl Default for GenCfg {
@@ -51,6 +53,7 @@ impl Default for GenCfg {
             deprecated: false,
             doc_chance: 40,
             exotic_docs: false,
+            rich_link_targets: false,
         }
     }
 }
@@ -253,6 +256,20 @@ impl<'a, 'b> Gen<'a, 'b> {
         let mut targets: Vec<String> = self.plans.iter().map(|p| p.name.clone()).filter(|n| !is_keyword(n)).collect();
         targets.push("Missing".into());
         targets.push("int32".into());
+        if self.cfg.rich_link_targets {
+            for p in &self.plans {
+                if is_keyword(&p.name) || p.scope.split("::").any(is_keyword) {
+                    continue;
+                }
+                targets.push(join(&p.scope, &p.name));
+                targets.push(format!("::{}", join(&p.scope, &p.name)));
+            }
+            // member names resolve (or not) from the documented element outwards; module names and
+            // scoped member spellings are legal targets too
+            for m in ["a", "b", "x", "id", "name", "S::a", "T::x", "A", "A::B", "M", "Missing::X", "string", "a::b"] {
+                targets.push(m.to_owned());
+            }
+        }
         crate::doc::DocCfg {
             targets,
             params,
